@@ -483,8 +483,13 @@ vtop_init(kdump_ctx_t *ctx)
 
 	rwlock_rdlock(&ctx->shared->lock);
 	if (axres != ADDRXLAT_OK) {
-		/* Out of memory is transient: try again next time. */
-		if (axres == ADDRXLAT_ERR_NOMEM)
+		/* Out of memory is transient: try again next time.
+		 * The same goes for an OS error (allocation or I/O
+		 * failure) met by one of our callbacks while reading
+		 * the dump on behalf of libaddrxlat.
+		 */
+		if (axres == ADDRXLAT_ERR_NOMEM ||
+		    axres == -(addrxlat_status)KDUMP_ERR_SYSTEM)
 			ctx->xlat->dirty = true;
 		return addrxlat2kdump(ctx, axres);
 	}
